@@ -3,7 +3,7 @@
     (The model's clock [s_now] is logical; that the implementation's sweeps happen every expiry period of real
     time is observed by the check around real sweeps, not proved.) *)
 From Xds Require Import Model.Base Model.Fqdn Model.Proto Model.Decode Model.DecodeCheck Model.Pick Model.Route Model.Mw Model.Sys Model.SysCheck.
-From Xds Require Import Proofs.DecodeProofs Proofs.C01Proofs Proofs.SweepProofs.
+From Xds Require Import Model.FullView Proofs.DecodeProofs Proofs.C01Proofs Proofs.SweepProofs Proofs.FullProofs.
 Open Scope string_scope.
 
 (** One sweep, for every type and name at once: exactly the idle names disappear from the cache, from the access
@@ -92,6 +92,14 @@ Theorem C19_every_entry_can_expire : forall c o h t n,
   amem n (tget t (s_cache (final c o h))) = true -> amem n (tget t (s_meta (final c o h))) = true.
 Proof. exact reachable_cover. Qed.
 Print Assumptions C19_every_entry_can_expire.
+
+(** Eviction inside the per-key fold of the whole history: see C01_refinement_full; its sweep clause is
+    [fv_step .. OSweep]: a key with an access record older than the expiry period (and not reserved) loses its content,
+    its access record and its place in the interest set; every other key is untouched.  The fold is evaluated on the
+    implementation's traces around real sweeps ([spec_full]). *)
+Theorem C19_sweep_in_the_fold : forall c o t n s, finv s -> absf t n (fst (sweep s)) = fv_step c o t n (absf t n s) OSweep.
+Proof. exact absf_sweep. Qed.
+Print Assumptions C19_sweep_in_the_fold.
 
 Theorem C19_example :
   let c := {| sc_nds_required := false; sc_f := {| f_ns := "default"; f_dom := "cluster.local" |} |} in
